@@ -3,13 +3,14 @@
    C13 is evaluated on the OBSERVED output against the input lines (nothing of the model is used
    for that), and the observed output is compared with what MapsAggregate's fold computes for the
    same lines (conformance: every merge decision of the code is the model's).                  *)
-EXTENDS MapsAggregate, Integers, Json, IOUtils
+EXTENDS MapsAggregate, Integers, Json, IOUtils, FiniteSets
 Rec == ndJsonDeserialize(IOEnv.TRACE)
 VARIABLES l, viol, drift, nchk, nmerge
 tvars == <<vars, l, viol, drift, nchk, nmerge>>
 E == Rec[l]
 Has(r, f) == f \in DOMAIN r
-Note(cond, seq, tag) == IF cond \/ Len(seq) >= 200 THEN seq ELSE Append(seq, <<l, tag>>)
+NTag(seq, tag) == Cardinality({k \in 1..Len(seq) : seq[k][2] = tag})
+Note(cond, seq, tag) == IF cond \/ NTag(seq, tag) >= 60 THEN seq ELSE Append(seq, <<l, tag>>)
 TInit == Init /\ l = 1 /\ viol = <<>> /\ drift = <<>> /\ nchk = 0 /\ nmerge = 0
 CxOf(e) == [gate |-> e.gate, paths |-> {e.lines[i].name : i \in {k \in 1..Len(e.lines) : e.lines[k].path}}]
 Strip(m) == [start |-> m.start, size |-> m.size, sysend |-> m.sysend, off |-> m.off, exec |-> m.exec,
